@@ -567,6 +567,24 @@ func (fd *Client) BatchWriteItemWithContext(ctx aws.Context, input *dynamodb.Bat
 
 // BatchWriteItem mock response for dynamodb
 func (fd *Client) BatchWriteItem(input *dynamodb.BatchWriteItemInput) (*dynamodb.BatchWriteItemOutput, error) {
+	if ferr := fd.failureErr(); ferr != nil {
+		// nothing is applied while a failure is emulated: every request is unprocessed, or the call fails
+		unprocessed := map[string][]*dynamodb.WriteRequest{}
+
+		for table, reqs := range input.RequestItems {
+			for _, req := range reqs {
+				if err := handleBatchWriteRequestError(table, req, unprocessed, ferr); err != nil {
+					return &dynamodb.BatchWriteItemOutput{}, err
+				}
+			}
+		}
+
+		return &dynamodb.BatchWriteItemOutput{
+			UnprocessedItems:      unprocessed,
+			ItemCollectionMetrics: fd.getItemCollectionMetrics(),
+		}, nil
+	}
+
 	if err := validateBatchWriteItemInput(input); err != nil {
 		return &dynamodb.BatchWriteItemOutput{}, err
 	}
